@@ -1,5 +1,5 @@
 """C01 — HexaryTrie behaves as a byte-string map under every history."""
-from ..core import Violation, hx, unhx
+from ..core import Violation, deep, hx, unhx
 from ..hgen import HistoryGen, make_pool, make_values, probe_keys
 from ..hworld import HWorld
 
@@ -96,7 +96,7 @@ def generate(rng):
     cache = rng.choice([0, 1, 2, 8, 4096])
     g = HistoryGen(rng, pool, values, probes, batches=True, aborts=True, reopen=True,
                    lookups=rng.choice([(0, 2), (1, 3), (2, 4)]))
-    cmds = g.history(rng.randint(10, 80))
+    cmds = g.history(rng.randint(10, deep(80, 200)))
     if not prune:
         # sprinkle at_root reads of earlier roots
         n = rng.randint(0, 4)
